@@ -12,12 +12,67 @@ import (
 	"strings"
 	"time"
 
+	"github.com/google/inverting-proxy/app/store"
 	"github.com/google/inverting-proxy/app/types"
 	"github.com/google/inverting-proxy/zz_verif/vh"
 )
 
 var _ = reg("appauth", suiteAppAuth)
 var _ = reg("apprelay", suiteAppRelay)
+var _ = reg("blob", suiteBlob)
+
+// suiteBlob (C19, storage part): payloads stored with newBlob and read back with blob.read over the fake datastore
+// (entity size limit 1 MiB - 4 as in production), sizes around every part boundary.
+func suiteBlob(e *vh.Env) {
+	e.OpenOps("blob")
+	e.Result.Rule = "newBlob + blob.read of the real store over the fake datastore for payload sizes 0, 1, and L-1, L, L+1 around every multiple L = 1,000,000 up to 4L (thorough: 7L) plus random sizes; the payload read back must be identical; inlined length and part count are compared with Model/Blob; non-trivial = payload of at least L bytes"
+	fake.reset()
+	L := store.VerifFieldByteLimit
+	var sizes []int
+	maxK := 4
+	if e.Thorough() {
+		maxK = 7
+	}
+	sizes = append(sizes, 0, 1, 17)
+	for k := 1; k <= maxK; k++ {
+		sizes = append(sizes, k*L-1, k*L, k*L+1)
+	}
+	for k := 0; k < e.N(4, 40); k++ {
+		sizes = append(sizes, e.Rng.Intn(maxK*L))
+	}
+	for i, n := range sizes {
+		if !e.Want(i) {
+			continue
+		}
+		data := e.Rng.Sub(i).Bytes(n)
+		st, hdr, back := verifCall("blob", "POST", "/blob", http.Header{hdrVerifReqID: {fmt.Sprintf("blob-%d-%d", e.Seed, i)}}, data)
+		if st != 200 {
+			e.Fail("C19:blob-unreadable", fmt.Sprintf("a payload of %d bytes was stored but could not be read back: %d %s", n, st, truncBytes(back, 200)), i, nil, nil, nil)
+			continue
+		}
+		if !bytes.Equal(back, data) {
+			e.Fail("C19:blob-altered", fmt.Sprintf("a payload of %d bytes read back as %d bytes (first difference at %d)", n, len(back), firstDiff(back, data)), i, nil, len(back), n)
+		}
+		e.Op(fmt.Sprintf("shape %d", n), fmt.Sprintf("inlined=%s parts=%s", hdr.Get("X-Inlined"), hdr.Get("X-Parts")))
+		e.Eval(fmt.Sprint(n), n >= L)
+		e.Count(fmt.Sprintf("multiple-of-L:%v", n > 0 && n%L == 0))
+		if i < 3 {
+			e.Sample(map[string]interface{}{"size": n, "inlined": hdr.Get("X-Inlined"), "parts": hdr.Get("X-Parts")})
+		}
+	}
+}
+
+func firstDiff(a, b []byte) int {
+	for i := 0; i < len(a) && i < len(b); i++ {
+		if a[i] != b[i] {
+			return i
+		}
+	}
+	if len(a) < len(b) {
+		return len(a)
+	}
+	return len(b)
+}
 
 const adminOAuth = "admin@corp.example"
 
@@ -149,7 +204,7 @@ func suiteAppAuth(e *vh.Env) {
 			}
 		})
 		if got != u.want {
-			e.Fail("C17:enduser-routing", fmt.Sprintf("user %q path %s was routed to %q, want %q", u.user, u.path, got, u.want), i, nil, got, u.want)
+			e.Fail("C18:enduser-routing", fmt.Sprintf("user %q path %s was routed to %q, want %q", u.user, u.path, got, u.want), i, nil, got, u.want)
 		}
 		if u.user != "" {
 			obs := "404"
